@@ -21,7 +21,13 @@ def build(tier, seed):
     u.std = dict(os_char=('std::operator<<', 'signed char a1'), os_cstr=('std::operator<<', 'signed char *a1'), os_ulong=('std::basic_ostream<char>::operator<<', 'unsigned long a1'),
                  os_copy=('std::copy', 'ostream_iterator'), sv_begin=('std::basic_string_view<char8_t>::begin',), sv_end=('std::basic_string_view<char8_t>::end',))
     work = os.path.join(ipv.BUILD, 'gen', 'C18'); os.makedirs(work, exist_ok=True)
-    u.lower(os.path.join(work, 'lowered'))
+    try:
+        u.lower(os.path.join(work, 'lowered'))
+    except Undecided as e:
+        # the changed printer uses a construct outside the lowering's subset (e.g. a stream manipulator passed as a function pointer):
+        # no obligation can be generated; the native sweep decides
+        meta = dict(sweep_family='C18', always_sweep=True, undecided_build='the printer functions cannot be lowered: ' + str(e)[-300:], functions_under_contract=[], assumptions=[])
+        return [], [], meta
     extra = sorted(set(s['qualified'] for s in u.json['std_stubs']) - ALLOWED_STD)
     if extra:
         # K6: the printer touches its stream through something other than character / string / unsigned insertion (a manipulator, a
@@ -72,9 +78,7 @@ def build(tier, seed):
         else:
             o.gen = gen
         obs.append(o)
-    if raise_later:
-        raise Undecided(raise_later)
-    meta = dict(sweep_family='C18', always_sweep=True, functions_under_contract=sorted(v for k, v in names.items() if k.startswith('pr_')),
+    meta = dict(sweep_family='C18', always_sweep=True, undecided_build=raise_later, functions_under_contract=sorted(v for k, v in names.items() if k.startswith('pr_')),
                 assumptions=['std::ostream model: (formatting flags, bytes); character / string / unsigned insertion and ostream_iterator copy are the only stream operations the lowered printer functions call (allow-list checked when the unit is built)',
                              'sub-prints (xpr_expr, xpr_stmt, xpr_decl of an operand) are replaced by the common contract -- indentation and stream state left as found -- which every function under contract here is proved to satisfy (partial-correctness induction over the recursion); functions not under contract: the expression precedence tower, types, declarations, blocks with member sequences',
                              'TERMINATION (no unbounded recursion for unsupported constructs) is not decided by a contract: the native sweep, run on every check, prints every expression kind the factories build plus control-byte literals and all delimiters under a stack limit'])
